@@ -7,18 +7,12 @@ package main
 import (
 	"fmt"
 	"os"
-	"runtime/pprof"
 
 	"verifharness/vkit"
 )
 
 func main() {
 	r := vkit.Start("exploration")
-	if p := os.Getenv("VTLS_CPUPROFILE"); p != "" {
-		f, _ := os.Create(p)
-		pprof.StartCPUProfile(f)
-		defer pprof.StopCPUProfile()
-	}
 	r.Assume("peer = Go crypto/tls client of this toolchain (TLS1.0-1.2, no SSLv3, no session-id resumption) plus hand-written ClientHellos; SSLv3 is only observed up to the ServerHello")
 	r.Assume("server certificates: one RSA-2048 and one ECDSA P-256, generated at run time; transport is an in-memory buffered pipe (no TCP)")
 	switch r.Prop {
@@ -33,6 +27,5 @@ func main() {
 		fmt.Fprintln(os.Stderr, "vtls: unknown property", r.Prop)
 		os.Exit(vkit.ExitInconclusive)
 	}
-	pprof.StopCPUProfile()
 	r.Finish()
 }
